@@ -540,7 +540,7 @@ func fsOne(tr *tracer.T, seed int64, c *fsCase) int {
 	t0 := time.Now()
 	switch c.Cfg.Mode {
 	case "incr":
-		ab, pan = fsRunIncr(c, keys, scripts, addr, seed)
+		ab, pan = fsRunIncr(c, keys, scripts, addr, seed, func() int { return len(srv.Log()) })
 		if ab != nil && strings.Contains(ab.Err+ab.Msg, "EOF") {
 			ab = nil // the parser ends at the end of the scripted stream
 		}
@@ -745,7 +745,7 @@ func init() { register("fs", fsRun) }
 // database selected on the source when the script commands of the last incremental scenario were issued
 var fsScriptDb = 0
 
-func fsRunIncr(c *fsCase, keys []*fsSrcKey, scripts [][]byte, addr string, seed int64) (*abortInfo, string) {
+func fsRunIncr(c *fsCase, keys []*fsSrcKey, scripts [][]byte, addr string, seed int64, seen func() int) (*abortInfo, string) {
 	rnd := rand.New(rand.NewSource(seed + int64(c.Id)))
 	var stream []byte
 	cur := -1
@@ -818,7 +818,17 @@ func fsRunIncr(c *fsCase, keys []*fsSrcKey, scripts [][]byte, addr string, seed 
 	for i := 0; i < 2000 && ds.VerifSendBufLen() > 0; i++ {
 		time.Sleep(200 * time.Microsecond)
 	}
-	time.Sleep(8 * time.Millisecond)
+	// ... and until the target has been quiet for a while (a stall budget, not a fixed pause: under load the sender may be
+	// descheduled between taking the last command off the queue and writing it out)
+	last, quiet := seen(), 0
+	for i := 0; i < 1500 && quiet < 12; i++ {
+		time.Sleep(2 * time.Millisecond)
+		if n := seen(); n != last {
+			last, quiet = n, 0
+		} else {
+			quiet++
+		}
+	}
 	conn.Close()
 	return ab, pan
 }
